@@ -1,11 +1,395 @@
 /-
   C10 "Every program ends in a value or an error, never a crash or a hang".
-  (b) inventory obligations: the panic sites regenerated from the Go sources are the expected ones.
+
+  (a) modelled fragment: the transliterated first-order evaluator (`Arrai.C10.eval`, with the compile-time
+      folding order `run`) reaches a panic site only on expressions that have one of the decidable shapes of
+      the open known findings (`trig`); termination is structural (all functions are total Lean functions).
+  (b) inventory: the panic sites regenerated from the Go sources are the expected, classified ones.
+  (c) arbitrary source text, the standard library and hangs are validated by fuzzing only (lib/props_c10.py).
 -/
 import Arrai.Facts.Generated
 import Arrai.C10.Expected
+import Arrai.C10.Lemmas
 
 namespace Arrai.C10
+open Arrai Outcome
+
+/-! ## (a) no panic outside the open shapes -/
+
+theorem or_false_split {a b : Bool} (h : (a || b) = false) : a = false ∧ b = false := by
+  cases a <;> cases b <;> simp_all
+
+mutual
+theorem eval_safe : ∀ (e : E), trig e = false → ∀ s, eval e ≠ .panic s
+  | .num _, _, s => by simp [eval]
+  | .str _, _, s => by simp [eval]
+  | .tuple kvs, h, s => by
+    simp only [trig] at h
+    obtain ⟨h1, h2⟩ := or_false_split h
+    intro hp
+    simp only [eval] at hp
+    rcases bind_panic hp with h' | ⟨as, has, h'⟩
+    · exact evalAttrs_safe kvs h1 s h'
+    · rw [has] at h2
+      simp [newTuple_panic h'] at h2
+  | .set xs, h, s => by
+    simp only [trig] at h
+    obtain ⟨h1, h2⟩ := or_false_split h
+    intro hp
+    simp only [eval] at hp
+    rcases bind_panic hp with h' | ⟨vs, hvs, h'⟩
+    · exact evalList_safe xs h1 s h'
+    · rw [hvs] at h2
+      simp [newSet_panic h'] at h2
+  | .arr xs, h, s => by
+    simp only [trig] at h
+    intro hp
+    simp only [eval] at hp
+    rcases bind_panic hp with h' | ⟨vs, _, h'⟩
+    · exact evalList_safe xs h s h'
+    · simp at h'
+  | .dict kvs, h, s => by
+    simp only [trig] at h
+    intro hp
+    simp only [eval] at hp
+    rcases bind_panic hp with h' | ⟨vs, _, h'⟩
+    · exact evalPairs_safe kvs h s h'
+    · exact newDictLit_no_panic vs s h'
+  | .rel hd rows, h, s => by
+    simp only [trig] at h
+    obtain ⟨h12, h3⟩ := or_false_split h
+    obtain ⟨h1, h2⟩ := or_false_split h12
+    intro hp
+    simp only [eval] at hp
+    rcases bind_panic hp with h' | ⟨ts, hts, h'⟩
+    · exact evalRel_safe hd rows h1 h2 s h'
+    · rw [hts] at h3
+      simp [newSet_panic h'] at h3
+  | .bin op a b, h, s => by
+    simp only [trig] at h
+    obtain ⟨h12, h3⟩ := or_false_split h
+    obtain ⟨h1, h2⟩ := or_false_split h12
+    intro hp
+    simp only [eval] at hp
+    rcases bind_panic hp with h' | ⟨va, hva, h'⟩
+    · exact eval_safe a h1 s h'
+    · split at h'
+      · simp at h'
+      · rcases bind_panic h' with h'' | ⟨vb, hvb, h''⟩
+        · exact eval_safe b h2 s h''
+        · rw [hva, hvb] at h3
+          simp [binVals_panic h''] at h3
+  | .cmp op a b, h, s => by
+    simp only [trig] at h
+    obtain ⟨h1, h2⟩ := or_false_split h
+    intro hp
+    simp only [eval] at hp
+    rcases bind_panic hp with h' | ⟨va, _, h'⟩
+    · exact eval_safe a h1 s h'
+    · rcases bind_panic h' with h'' | ⟨vb, _, h''⟩
+      · exact eval_safe b h2 s h''
+      · exact cmpVals_no_panic op va vb s h''
+  | .un op a, h, s => by
+    simp only [trig] at h
+    intro hp
+    simp only [eval] at hp
+    rcases bind_panic hp with h' | ⟨va, _, h'⟩
+    · exact eval_safe a h s h'
+    · exact unVals_no_panic op va s h'
+  | .dot a name, h, s => by
+    simp only [trig] at h
+    intro hp
+    simp only [eval] at hp
+    rcases bind_panic hp with h' | ⟨va, _, h'⟩
+    · exact eval_safe a h s h'
+    · exact dotVal_no_panic va name s h'
+  | .seqmap a c, h, s => by
+    simp only [trig] at h
+    obtain ⟨h12, h3⟩ := or_false_split h
+    obtain ⟨h1, h2⟩ := or_false_split h12
+    intro hp
+    simp only [eval] at hp
+    rcases bind_panic hp with h' | ⟨va, hva, h'⟩
+    · exact eval_safe a h1 s h'
+    · cases va with
+      | num _ => simp at h'
+      | tup _ => simp at h'
+      | set xs =>
+        cases xs with
+        | nil => simp at h'
+        | cons x t =>
+          simp only at h'
+          rcases bind_panic h' with h'' | ⟨vc, hvc, h''⟩
+          · exact eval_safe c h2 s h''
+          · rw [hva, hvc] at h3
+            simp [seqMapConst_panic h''] at h3
+theorem evalList_safe : ∀ (xs : List E), trigList xs = false → ∀ s, evalList xs ≠ .panic s
+  | [], _, s => by simp [evalList]
+  | e :: rest, h, s => by
+    simp only [trigList] at h
+    obtain ⟨h1, h2⟩ := or_false_split h
+    intro hp
+    simp only [evalList] at hp
+    rcases bind_panic hp with h' | ⟨v, _, h'⟩
+    · exact eval_safe e h1 s h'
+    · rcases bind_panic h' with h'' | ⟨vs, _, h''⟩
+      · exact evalList_safe rest h2 s h''
+      · simp at h''
+theorem evalAttrs_safe : ∀ (kvs : List (String × E)), trigAttrs kvs = false → ∀ s, evalAttrs kvs ≠ .panic s
+  | [], _, s => by simp [evalAttrs]
+  | (n, e) :: rest, h, s => by
+    simp only [trigAttrs] at h
+    obtain ⟨h1, h2⟩ := or_false_split h
+    intro hp
+    simp only [evalAttrs] at hp
+    rcases bind_panic hp with h' | ⟨v, _, h'⟩
+    · exact eval_safe e h1 s h'
+    · rcases bind_panic h' with h'' | ⟨vs, _, h''⟩
+      · exact evalAttrs_safe rest h2 s h''
+      · simp at h''
+theorem evalPairs_safe : ∀ (kvs : List (E × E)), trigPairs kvs = false → ∀ s, evalPairs kvs ≠ .panic s
+  | [], _, s => by simp [evalPairs]
+  | (k, e) :: rest, h, s => by
+    simp only [trigPairs] at h
+    obtain ⟨h12, h3⟩ := or_false_split h
+    obtain ⟨h1, h2⟩ := or_false_split h12
+    intro hp
+    simp only [evalPairs] at hp
+    rcases bind_panic hp with h' | ⟨kv, _, h'⟩
+    · exact eval_safe k h1 s h'
+    · rcases bind_panic h' with h'' | ⟨v, _, h''⟩
+      · exact eval_safe e h2 s h''
+      · rcases bind_panic h'' with h''' | ⟨vs, _, h'''⟩
+        · exact evalPairs_safe rest h3 s h'''
+        · simp at h'''
+theorem evalRel_safe : ∀ (hd : List String) (rows : List (List E)), trigRows rows = false → pinnedRows hd rows = false →
+    ∀ s, evalRel hd rows ≠ .panic s
+  | _, [], _, _, s => by simp [evalRel]
+  | hd, r :: rest, h, hpin, s => by
+    simp only [trigRows] at h
+    obtain ⟨h1, h2⟩ := or_false_split h
+    simp only [pinnedRows] at hpin
+    obtain ⟨p1, p2⟩ := or_false_split hpin
+    intro hp
+    simp only [evalRel] at hp
+    rcases bind_panic hp with h' | ⟨vs, hvs, h'⟩
+    · exact evalList_safe r h1 s h'
+    · rcases bind_panic h' with h'' | ⟨t, _, h''⟩
+      · rw [hvs] at p1
+        exact relRow_no_panic hd vs s (by simpa using p1) h''
+      · rcases bind_panic h'' with h''' | ⟨ts, _, h'''⟩
+        · exact evalRel_safe hd rest h2 p2 s h'''
+        · simp at h'''
+end
+
+/-- **no_panic**: an admissible expression of the modelled fragment never evaluates to a panic: every panic call,
+unchecked assertion and Must* call inside the transliterated functions is unreachable unless a node of the expression
+is applied to operands of one of the open shapes (pinned sugar-headed tuple, relation-bucket clash) -/
+theorem no_panic (e : E) (h : Adm e) : ∀ s, eval e ≠ .panic s := eval_safe e h
+
+end Arrai.C10
+
+namespace Arrai.C10
+open Arrai Outcome
+
+/-! ### compile phase: constant folding runs the same constructors earlier, never other ones -/
+
+theorem orElse_some {a b : Option (Outcome V)} {o : Outcome V} (h : orElse a b = some o) : a = some o ∨ b = some o := by
+  cases a with
+  | none => exact Or.inr h
+  | some x => exact Or.inl h
+
+theorem failOf_panic {o : Outcome V} {s : Site} (h : failOf o = some (.panic s)) : o = .panic s := by
+  cases o with
+  | ok v => simp [failOf] at h
+  | err => simp [failOf] at h
+  | panic t => simpa [failOf] using h
+
+theorem relBuild_panic : ∀ (hd : List String) (rows : List (List E)) (s : Site),
+    relBuild hd rows = some (.panic s) → pinnedRows hd rows = true
+  | _, [], s, h => by simp [relBuild] at h
+  | hd, r :: rest, s, h => by
+    simp only [relBuild] at h
+    split at h
+    · simp at h
+    · rcases orElse_some h with h' | h'
+      · split at h'
+        · cases hv : evalList r with
+          | ok vs =>
+            rw [hv] at h'
+            simp only at h'
+            have hp := failOf_panic h'
+            simp only [pinnedRows, hv]
+            by_cases hc : (hd.length == vs.length && pinnedTuple (Lit.zipAttrs hd vs)) = true
+            · simp [hc]
+            · exact absurd hp (relRow_no_panic hd vs s (by simpa using hc))
+          | err => rw [hv] at h'; simp at h'
+          | panic t => rw [hv] at h'; simp at h'
+        · simp at h'
+      · simp only [pinnedRows, relBuild_panic hd rest s h', Bool.or_true]
+
+mutual
+theorem cfail_panic : ∀ (e : E) (s : Site), cfail e = some (.panic s) → trig e = true
+  | .num _, s, h => by simp [cfail] at h
+  | .str _, s, h => by simp [cfail] at h
+  | .tuple kvs, s, h => by
+    simp only [cfail] at h
+    rcases orElse_some h with h' | h'
+    · simp only [trig, cfailAttrs_panic kvs s h', Bool.true_or]
+    · split at h'
+      · apply Classical.byContradiction
+        intro hn
+        exact eval_safe (.tuple kvs) (by simpa using hn) s (failOf_panic h')
+      · simp at h'
+  | .set xs, s, h => by
+    simp only [cfail] at h
+    rcases orElse_some h with h' | h'
+    · simp only [trig, cfailList_panic xs s h', Bool.true_or]
+    · split at h'
+      · apply Classical.byContradiction
+        intro hn
+        exact eval_safe (.set xs) (by simpa using hn) s (failOf_panic h')
+      · simp at h'
+  | .arr xs, s, h => by
+    simp only [cfail] at h
+    simp only [trig, cfailList_panic xs s h]
+  | .dict kvs, s, h => by
+    simp only [cfail] at h
+    rcases orElse_some h with h' | h'
+    · simp only [trig, cfailPairs_panic kvs s h']
+    · split at h'
+      · apply Classical.byContradiction
+        intro hn
+        exact eval_safe (.dict kvs) (by simpa using hn) s (failOf_panic h')
+      · simp at h'
+  | .rel hd rows, s, h => by
+    simp only [cfail] at h
+    rcases orElse_some h with h' | h'
+    · simp only [trig, cfailRows_panic rows s h', Bool.true_or]
+    · rcases orElse_some h' with h'' | h''
+      · simp only [trig, relBuild_panic hd rows s h'', Bool.or_true, Bool.true_or]
+      · split at h''
+        · apply Classical.byContradiction
+          intro hn
+          exact eval_safe (.rel hd rows) (by simpa using hn) s (failOf_panic h'')
+        · simp at h''
+  | .bin _ a b, s, h => by
+    simp only [cfail] at h
+    rcases orElse_some h with h' | h'
+    · simp only [trig, cfail_panic a s h', Bool.true_or]
+    · simp only [trig, cfail_panic b s h', Bool.or_true, Bool.true_or]
+  | .cmp _ a b, s, h => by
+    simp only [cfail] at h
+    rcases orElse_some h with h' | h'
+    · simp only [trig, cfail_panic a s h', Bool.true_or]
+    · simp only [trig, cfail_panic b s h', Bool.or_true]
+  | .un _ a, s, h => by
+    simp only [cfail] at h
+    simp only [trig, cfail_panic a s h]
+  | .dot a _, s, h => by
+    simp only [cfail] at h
+    simp only [trig, cfail_panic a s h]
+  | .seqmap a c, s, h => by
+    simp only [cfail] at h
+    rcases orElse_some h with h' | h'
+    · simp only [trig, cfail_panic a s h', Bool.true_or]
+    · simp only [trig, cfail_panic c s h', Bool.or_true, Bool.true_or]
+theorem cfailList_panic : ∀ (xs : List E) (s : Site), cfailList xs = some (.panic s) → trigList xs = true
+  | [], s, h => by simp [cfailList] at h
+  | e :: rest, s, h => by
+    simp only [cfailList] at h
+    rcases orElse_some h with h' | h'
+    · simp only [trigList, cfail_panic e s h', Bool.true_or]
+    · simp only [trigList, cfailList_panic rest s h', Bool.or_true]
+theorem cfailAttrs_panic : ∀ (kvs : List (String × E)) (s : Site), cfailAttrs kvs = some (.panic s) → trigAttrs kvs = true
+  | [], s, h => by simp [cfailAttrs] at h
+  | (_, e) :: rest, s, h => by
+    simp only [cfailAttrs] at h
+    rcases orElse_some h with h' | h'
+    · simp only [trigAttrs, cfail_panic e s h', Bool.true_or]
+    · simp only [trigAttrs, cfailAttrs_panic rest s h', Bool.or_true]
+theorem cfailPairs_panic : ∀ (kvs : List (E × E)) (s : Site), cfailPairs kvs = some (.panic s) → trigPairs kvs = true
+  | [], s, h => by simp [cfailPairs] at h
+  | (k, e) :: rest, s, h => by
+    simp only [cfailPairs] at h
+    rcases orElse_some h with h' | h'
+    · simp only [trigPairs, cfail_panic k s h', Bool.true_or]
+    · rcases orElse_some h' with h'' | h''
+      · simp only [trigPairs, cfail_panic e s h'', Bool.or_true, Bool.true_or]
+      · simp only [trigPairs, cfailPairs_panic rest s h'', Bool.or_true]
+theorem cfailRows_panic : ∀ (rows : List (List E)) (s : Site), cfailRows rows = some (.panic s) → trigRows rows = true
+  | [], s, h => by simp [cfailRows] at h
+  | r :: rest, s, h => by
+    simp only [cfailRows] at h
+    rcases orElse_some h with h' | h'
+    · simp only [trigRows, cfailList_panic r s h', Bool.true_or]
+    · simp only [trigRows, cfailRows_panic rest s h', Bool.or_true]
+end
+
+/-- **run_no_panic**: compiling (with constant folding) and then evaluating an admissible expression ends in a value or
+an error — in the model of `syntax.EvaluateExpr` for the fragment -/
+theorem run_no_panic (e : E) (h : Adm e) : ∀ s, run e ≠ .panic s := by
+  intro s hr
+  unfold run at hr
+  cases hc : cfail e with
+  | none => rw [hc] at hr; exact eval_safe e h s hr
+  | some o =>
+    rw [hc] at hr
+    simp only at hr
+    rw [hr] at hc
+    have := cfail_panic e s hc
+    rw [h] at this
+    cases this
+
+/-- every outcome of an admissible expression is a value or an ordinary error -/
+theorem run_value_or_error (e : E) (h : Adm e) : (∃ v, run e = .ok v) ∨ run e = .err := by
+  cases hr : run e with
+  | ok v => exact Or.inl ⟨v, rfl⟩
+  | err => exact Or.inr rfl
+  | panic s => exact absurd hr (run_no_panic e h s)
+
+end Arrai.C10
+
+namespace Arrai.C10
+open Arrai Outcome
+
+/-! ### the guard `Adm` is needed: one witness per open class -/
+
+/-- the full-strength statement: no expression of the fragment panics -/
+def no_panic_full : Prop := ∀ (e : E) (s : Site), run e ≠ .panic s
+
+/-- `(@: {}, @item: 2)`: asserted to panic by syntax/expr_tuple_test.go (KF-pinned-panics) -/
+def wPinnedIndex : E := .tuple [("@", .set []), ("@item", .num 2)]
+/-- `(@: 1, @char: 'x')`: asserted to panic by syntax/expr_tuple_test.go (KF-pinned-panics) -/
+def wPinnedElem : E := .tuple [("@", .num 1), ("@char", .str [120])]
+/-- `{('a, b': 1), (a: 1, b: 2)}` (KF-relation-bucket, relationBuilder.Add) -/
+def wBucket : E := .set [.tuple [("a, b", .num 1)], .tuple [("a", .num 1), ("b", .num 2)]]
+/-- `{(a: 1, b: 2)} with ('a, b': 1)` (KF-relation-bucket, toUnionSetWithItem) -/
+def wBucketWith : E := .bin .with_ (.set [.tuple [("a", .num 1), ("b", .num 2)]]) (.tuple [("a, b", .num 1)])
+/-- `{(@: 0, @char: 97), (@: 0, @item: 1)} >> \z 'a'`: no ill-typed tuple is written, `>>` builds it (KF-pinned-panics) -/
+def wSeqmap : E :=
+  .seqmap (.set [.tuple [("@", .num 0), ("@char", .num 97)], .tuple [("@", .num 0), ("@item", .num 1)]]) (.str [97])
+
+theorem wPinnedIndex_panics : run wPinnedIndex = .panic .newTupleIndex := by decide
+theorem wPinnedElem_panics : run wPinnedElem = .panic .newTupleElem := by decide
+theorem wBucket_panics : run wBucket = .panic .relBuilderGet := by decide
+theorem wBucketWith_panics : run wBucketWith = .panic .unionSetItem := by decide
+theorem wSeqmap_panics : run wSeqmap = .panic .newTupleElem := by decide
+
+theorem no_panic_full_false : ¬ no_panic_full := fun h => h wPinnedIndex .newTupleIndex wPinnedIndex_panics
+
+/-- the hypothesis of `no_panic` is satisfiable by non-trivial expressions:
+`({(a: 1, b: 'x'), (a: 2, b: {})} with (a: 3, b: ())) count` is admissible and evaluates to 3,
+`1 (<) {2}` is admissible and is an (ordinary) error -/
+def okExample : E :=
+  .un .count (.bin .with_
+    (.set [.tuple [("a", .num 1), ("b", .str [120])], .tuple [("a", .num 2), ("b", .set [])]])
+    (.tuple [("a", .num 3), ("b", .tuple [])]))
+
+example : Adm okExample ∧ run okExample = .ok (.num 3) := by decide
+example : Adm (.cmp .sub (.num 1) (.set [.num 2])) ∧ run (.cmp .sub (.num 1) (.set [.num 2])) = .err := by decide
+
+/-! ## (b) inventory -/
 
 set_option maxRecDepth 8000 in
 /-- every function of rel/, syntax/, engine/, translate/, tools/, pkg/*, cmd/arrai has exactly the expected number of
